@@ -152,9 +152,10 @@ def run(ctx):
         for h in order:
             if kind in ("date", "datetime") and h not in ("count", "count_unique", "first", "last", "nth", "mode", "min", "max"):
                 continue
-            for layout in range(7):
+            for layout in range(8):
                 hist.append({"t": "call", "h": h, "kind": kind, "status": "", "broken": False, "layout": layout, "h2": "",
-                             "a": {"dropna": rng.choice([True, False]), "idx": rng.choice([0, 1, -1, 5]), "q4": rng.choice([1, 2, 3])}})
+                             "a": {"dropna": rng.choice([True, False]), "idx": rng.choice([0, 1, -1, 5]), "q4": rng.choice([1, 2, 3]),
+                                   "ddof": rng.choice([0, 1, 2])}, "big": layout % 2 == 1})
         # larger random groups (16..40 rows, few distinct values => ties, interleaved) for the order / sort sensitive helpers
         for h in ("mode", "first", "last", "nth", "count_unique", "median", "quantile"):
             if kind in ("date", "datetime") and h in ("median", "quantile"):
@@ -183,8 +184,10 @@ def run(ctx):
     for h in chosen:
         for e in h:
             if e["t"] == "call":
-                e["layout"] = e.pop("layout_fixed") if "layout_fixed" in e else rng.randrange(7)
-                e["a"] = {"dropna": rng.choice([True, False]), "idx": rng.choice([0, 1, -1, 5]), "q4": rng.choice([1, 2, 3])}
+                e["layout"] = e.pop("layout_fixed") if "layout_fixed" in e else rng.randrange(8)
+                e["a"] = {"dropna": rng.choice([True, False]), "idx": rng.choice([0, 1, -1, 5]), "q4": rng.choice([1, 2, 3]),
+                          "ddof": rng.choice([0, 0, 1, 2])}
+                e["big"] = rng.random() < 0.25
     records = []
     with concurrent.futures.ThreadPoolExecutor(16) as ex:
         futs = {ex.submit(run_history, h, ctx.seed): h for h in matrix + chosen}
